@@ -232,8 +232,99 @@ def catalogue():
     add("def-annotations", Def("tb_f", P(pos=["pa_pos"]), [Ret(N("pa_pos"))], annots=[N("fr_ann"), N("fr_annret")]), call_f)
     add("def-in-def-decorator", Def("tb_f", P(), [Def("nl_g", P(), [Ret(N("fr_indef"))], decorators=[N("fr_deco")]), Ret(Call(N("nl_g")))]),
         Asg(["tb_r"], Call(N("tb_f"))))
+    # dotted depth 1..4, with and without `as`, from-imports of dotted packages, several names per statement, a name
+    # that is a prefix of another; real packages and the scratch package vpk/b/c/d written by install_packages()
+    def rd(*names):
+        return [Def("tb_rd", P(), [Ret(Op(*[N(n) for n in names]))]), Asg(["tb_rr"], Call(N("tb_rd")))]
+    add("import-1", {"k": "import", "names": ["vpk"], "form": "import vpk"}, *rd("vpk"))
+    add("import-2", {"k": "import", "names": ["vpk"], "form": "import vpk.b"}, *rd("vpk"))
+    add("import-3", {"k": "import", "names": ["vpk"], "form": "import vpk.b.c"}, *rd("vpk"))
+    add("import-4", {"k": "import", "names": ["vpk"], "form": "import vpk.b.c.d"}, *rd("vpk"))
+    add("import-3-real", {"k": "import", "names": ["xml"], "form": "import xml.etree.ElementTree"}, *rd("xml"))
+    add("import-3-real2", {"k": "import", "names": ["email"], "form": "import email.mime.text"}, *rd("email"))
+    add("import-3-as", {"k": "import", "names": ["tb_c"], "form": "import vpk.b.c as tb_c"}, *rd("tb_c"))
+    add("import-4-as", {"k": "import", "names": ["tb_d"], "form": "import vpk.b.c.d as tb_d"}, *rd("tb_d"))
+    add("import-dotted-several", {"k": "import", "names": ["os", "xml", "tb_d"], "form": "import os.path, xml.etree.ElementTree, vpk.b.c.d as tb_d"},
+        *rd("os", "xml", "tb_d"))
+    add("import-prefix-names", {"k": "import", "names": ["vpk", "vpkx"], "form": "import vpk.vpkx, vpkx.vpk"}, *rd("vpk", "vpkx"))
+    add("from-dotted-import", {"k": "import", "names": ["d"], "form": "from vpk.b.c import d"}, *rd("d"))
+    add("from-dotted-import-as", {"k": "import", "names": ["tb_d", "tb_c"], "form": "from vpk.b.c import d as tb_d; from vpk.b import c as tb_c"},
+        *rd("tb_d", "tb_c"))
+    add("from-dotted-import-several", {"k": "import", "names": ["c", "tb_c"], "form": "from vpk.b import c, c as tb_c"}, *rd("c", "tb_c"))
+    add("import-in-def-3", Def("tb_f", P(), [{"k": "import", "names": ["vpk"], "form": "import vpk.b.c"}, Ret(N("vpk"))]), Asg(["tb_r"], Call(N("tb_f"))))
+    for nm, stmts in nested_scope_shapes():
+        add(nm, *stmts)
     add("expr-genexp", {"k": "expr", "value": Op(N("fr_fn"), Comp("gen", [N("nl_comp")], [Gen(["nl_comp"], N("fr_iter"))]))})
     return c
+
+
+PACKAGES = {
+    "vpk/__init__.py": "", "vpk/b/__init__.py": "", "vpk/b/c/__init__.py": "", "vpk/b/c/d.py": "D = 1\n", "vpk/vpkx.py": "",
+    "vpkx/__init__.py": "", "vpkx/vpk.py": "",
+}
+
+
+def install_packages(run):
+    """scratch packages for the import forms, on sys.path for this run"""
+    import os
+    import sys
+    d = run.subdir("pkgs")
+    for fn, text in PACKAGES.items():
+        path = os.path.join(d, fn)
+        os.makedirs(os.path.dirname(path), exist_ok=True)
+        with open(path, "w") as f:
+            f.write(text)
+    if d not in sys.path:
+        sys.path.insert(0, d)
+    for n in list(sys.modules):
+        if n.split(".")[0] in ("vpk", "vpkx"):
+            del sys.modules[n]
+
+
+def nested_scope_shapes():
+    """Python functions in a block as a nested-scope structure: a function holding a nested def / lambda / class /
+    comprehension / generator expression as its first, middle or last statement, with stores before and AFTER it
+    (plain, augmented, for target, a local called `loop`).  [(name, statements)]"""
+    cons = {
+        "def": [Def("nl_g", P(pos=["pa_inner"]), [Asg(["nl_in"], N("pa_inner")), Ret(N("nl_in"))])],
+        "lambda": [Asg(["nl_l"], Lam(P(pos=["pa_lam"]), N("pa_lam")))],
+        "class": [{"k": "class", "name": "nl_K", "bases": [], "body": [Asg(["nl_m"], C())]}],
+        "listcomp": [Asg(["nl_c"], Comp("list", [N("nl_comp")], [Gen(["nl_comp"], N("fr_iter"))]))],
+        "genexp": [Asg(["nl_ge"], Call(N("fr_fn"), Comp("gen", [N("nl_gv")], [Gen(["nl_gv"], N("fr_iter"))])))],
+    }
+    before = [Asg(["nl_before"], N("fr_val"))]
+    after = [Asg(["nl_after"], N("fr_val")), {"k": "augassign", "target": "nl_after", "value": N("fr_inc")},
+             {"k": "for", "targets": ["nl_ft"], "iter": N("fr_iter"), "body": [Asg(["nl_fb"], N("nl_ft"))], "orelse": []}]
+    out = []
+
+    def fn(name, body, ret):
+        out.append((name, [Def("tb_f", P(), body + [Ret(Op(*[N(n) for n in ret]))]), Asg(["tb_r"], Call(N("tb_f")))]))
+    for cn, c in cons.items():
+        fn("scope-%s-first" % cn, c + after, ["nl_after", "nl_fb"])
+        fn("scope-%s-middle" % cn, before + c + after, ["nl_before", "nl_after", "nl_fb"])
+        fn("scope-%s-last" % cn, before + c, ["nl_before"])
+    fn("scope-def-lambda-two", before + cons["def"] + [Asg(["nl_mid"], N("fr_val"))] + cons["lambda"] + after, ["nl_before", "nl_mid", "nl_after"])
+    fn("scope-lambda-then-loop-local", cons["lambda"] + [Asg(["loop"], N("fr_val"))], ["loop"])
+    fn("scope-def-in-def-then-store", [Def("nl_g", P(), [Def("nl_h", P(), [Ret(C())]), Asg(["nl_deep"], N("fr_val")), Ret(N("nl_deep"))])] + after,
+       ["nl_after"])
+    return out
+
+
+def tlc_sets(run, progs, name):
+    """{id: (free, bound)} computed by TLC on PyScope.tla for programs given as TLA+ literals"""
+    tla = "---- MODULE MC_PyScope ----\nEXTENDS PyScope\nProgsDef == " + core.to_tla([strip_form(p) for p in progs]) + "\n====\n"
+    cfg = "CONSTANT Progs <- ProgsDef\nSPECIFICATION Spec\nINVARIANT WalkIsDefinition\nINVARIANT FreeBoundDisjoint\nCHECK_DEADLOCK FALSE\n"
+    res = run.tlc("MC_PyScope", cfg, name=name, workers=4, coverage=True, timeout=240, extra_files={"MC_PyScope.tla": tla})
+    if res.violated:
+        run.spec_violation(res)
+        return None
+    exp = {}
+    for r in res.json_lines():
+        if isinstance(r, dict) and "free" in r and "bound" in r and "id" in r:
+            exp[r["id"]] = (set(r["free"]), set(r["bound"]))
+    if len(exp) != len(progs):
+        raise MachineryError("PyScope printed %d of %d programs" % (len(exp), len(progs)))
+    return exp
 
 
 def rename(obj, suffix):
@@ -528,6 +619,7 @@ def mako_values(src, free, bound):
 
 
 def part_pyscope(run):
+    install_packages(run)
     cat = catalogue()
     progs = []
     meta = {}
